@@ -475,16 +475,16 @@ class ArrayBase(ParsableBase, MutableSequence, Serializable):
             self._items.append(item)
             self._items_size += self.param.get_item_size(item)
 
-        self._update_items_size(del_item=None, insert_item=None)
+        self._update_items_size()
 
         attr.validate(self)
 
-    def _update_items_size(self, del_item=None, insert_item=None):
+    def _update_items_size(self, del_items=(), insert_items=()):
         size_diff = 0
 
-        if del_item is not None:
+        for del_item in del_items:
             size_diff -= self.param.get_item_size(del_item)
-        if insert_item is not None:
+        for insert_item in insert_items:
             size_diff += self.param.get_item_size(insert_item)
 
         if self._items_size + size_diff < self.param.min_byte_num:
@@ -506,19 +506,29 @@ class ArrayBase(ParsableBase, MutableSequence, Serializable):
         return self._items[index]
 
     def __delitem__(self, index):
-        self._update_items_size(del_item=self._items[index])
+        del_items = self._items[index] if isinstance(index, slice) else [self._items[index], ]
+        self._update_items_size(del_items=del_items)
 
         del self._items[index]
 
     def __setitem__(self, index, value):
-        self._update_items_size(del_item=self._items[index], insert_item=value)
-        self._items[index] = value
+        if isinstance(index, slice):
+            value = list(value)
+            del_items, insert_items = self._items[index], value
+        else:
+            del_items, insert_items = [self._items[index], ], [value, ]
+
+        items = list(self._items)
+        items[index] = value
+
+        self._update_items_size(del_items=del_items, insert_items=insert_items)
+        self._items = items
 
     def __str__(self):
         return str(self._items)
 
     def insert(self, index, value):
-        self._update_items_size(insert_item=value)
+        self._update_items_size(insert_items=[value, ])
 
         self._items.insert(index, value)
 
